@@ -63,7 +63,12 @@ pub fn run(case: &Value) -> Value {
                     "provides" => bld.provides(string_of(&c["n"])),
                     "requires" => {
                         let mut r = Require::new(string_of(&c["n"]));
-                        r.metadata = to_table(&c["m"]);
+                        // the metadata either assigned directly or through Require::metadata (any Serialize value)
+                        if case["id"].as_u64().unwrap_or(0) % 2 == 1 {
+                            r.metadata(to_table(&c["m"])).expect("a table serialises as a table");
+                        } else {
+                            r.metadata = to_table(&c["m"]);
+                        }
                         bld.requires(r)
                     }
                     "or" => bld.or(),
@@ -77,6 +82,8 @@ pub fn run(case: &Value) -> Value {
         }
         "launch" => {
             let mut bld = LaunchBuilder::new();
+            // odd cases go through the bulk spellings of the builders (processes / labels / slices / args)
+            let bulk = case["id"].as_u64().unwrap_or(0) % 2 == 1;
             for c in case["calls"].as_array().unwrap() {
                 match c["c"].as_str().unwrap() {
                     "process" => {
@@ -85,7 +92,11 @@ pub fn run(case: &Value) -> Value {
                         for pc in c["calls"].as_array().unwrap() {
                             match pc["c"].as_str().unwrap() {
                                 "arg" => {
-                                    pb.arg(string_of(&pc["a"]));
+                                    if bulk {
+                                        pb.args([string_of(&pc["a"])]);
+                                    } else {
+                                        pb.arg(string_of(&pc["a"]));
+                                    }
                                 }
                                 "default" => {
                                     pb.default(pc["v"].as_bool().unwrap());
@@ -100,13 +111,27 @@ pub fn run(case: &Value) -> Value {
                                 o => panic!("{o}"),
                             }
                         }
-                        bld.process(pb.build());
+                        if bulk {
+                            bld.processes([pb.build()]);
+                        } else {
+                            bld.process(pb.build());
+                        }
                     }
                     "label" => {
-                        bld.label(Label { key: string_of(&c["k"]), value: string_of(&c["v"]) });
+                        let l = Label { key: string_of(&c["k"]), value: string_of(&c["v"]) };
+                        if bulk {
+                            bld.labels([l]);
+                        } else {
+                            bld.label(l);
+                        }
                     }
                     "slice" => {
-                        bld.slice(Slice { path_globs: c["paths"].as_array().unwrap().iter().map(string_of).collect() });
+                        let sl = Slice { path_globs: c["paths"].as_array().unwrap().iter().map(string_of).collect() };
+                        if bulk {
+                            bld.slices([sl]);
+                        } else {
+                            bld.slice(sl);
+                        }
                     }
                     o => panic!("{o}"),
                 }
